@@ -3,11 +3,13 @@ use std::path::Path;
 
 pub mod c17;
 pub mod c21;
+pub mod c32;
 
 pub fn for_property(p: &str) -> Vec<Suite> {
     match p {
         "C17" => c17::suites(),
         "C21" => c21::suites(),
+        "C32" => c32::suites(),
         _ => vec![],
     }
 }
